@@ -43,3 +43,46 @@ contract(
     ensures=[tag("C17", "clamped-to-unit-interval", "0 <= result and result <= 1")],
     assumptions=["max_errors >= 1 (Errors.__init__; a degenerate template with max_errors == 0 would divide by zero)"],
 )
+
+
+# ---- C01/C13: the storage type chosen by binpacking2d.Instance.__new__ holds everything the decoders store
+# (block: item loop + allocation).  The decoders' pre-condition "max_dim + item side + 1 <= D_hi, n_items + 1 <= D_hi, signed"
+# is exactly what is established here (modulo E1 = the assumed contract of int_range_to_dtype).
+from pyvc.spec import A2 as _A2, DTYPE, Loop, Summary, spec, lemma  # noqa: E402
+
+spec("sum_rep(m, k)", "0 if k <= 0 else sum_rep(m, k - 1) + m[k - 1, IDX_REPETITION]", ptypes=["arr2", "int"])
+_irtd = contract("<opaque>:int_range_to_dtype", params={"min_value": PYINT, "max_value": PYINT}, returns=DTYPE,
+                 ensures=["result[0] < 0 and result[0] <= min_value and result[1] >= max_value"],
+                 assumptions=["E1: moptipy int_range_to_dtype(min_value, max_value, force_signed=True) returns a signed dtype "
+                              "containing [min_value, max_value]"])
+
+contract(
+    BI + ":Instance.__new__#dtype",
+    props="C01 C13",
+    block=("assign n_items #0", "assign obj #0"),
+    params={"matrix": _A2("MI", cols=3), "n_different_items": PYINT, "max_dim": PYINT, "min_dim": PYINT,
+            "cls": OBJ, "use_name": OBJ},
+    i64=False,
+    requires=["n_different_items >= 1 and len(matrix) == n_different_items and 1 <= min_dim and min_dim <= max_dim"],
+    opaque={"check_int_range": _check_int_range, "int_range_to_dtype": _irtd},
+    attrs={"use_shape": "(n_different_items, 3)"},
+    summaries={"if #5": Summary({}, [], "isinstance(row, list | np.ndarray) check"),
+               "if #6": Summary({}, [], "len(row) != 3 check (matrix has three columns)")},
+    loops={"0": Loop(inv=[
+        tag("C01 C13", "count", "n_items == sum_rep(matrix, i) and n_items >= i"),
+        tag("C01 C13", "max-size", "max_size >= -1 and forall(k, 0, i, matrix[k, IDX_WIDTH] <= max_size and matrix[k, IDX_HEIGHT] <= max_size)"),
+        tag("C01", "rows-valid", "forall(k, 0, i, 1 <= matrix[k, IDX_WIDTH] and matrix[k, IDX_WIDTH] <= max_dim"
+            " and 1 <= matrix[k, IDX_HEIGHT] and matrix[k, IDX_HEIGHT] <= max_dim and matrix[k, IDX_REPETITION] >= 1"
+            " and not (matrix[k, IDX_WIDTH] > min_dim and matrix[k, IDX_HEIGHT] > min_dim))"),
+    ])},
+    ensures=[
+        tag("C01 C13", "dtype-holds-start-position", "forall(k, 0, n_different_items, max_dim + matrix[k, IDX_WIDTH] + 1 <= dtype_hi(obj)"
+            " and max_dim + matrix[k, IDX_HEIGHT] + 1 <= dtype_hi(obj))"),
+        tag("C01 C13", "dtype-holds-bin-count", "n_items == sum_rep(matrix, n_different_items) and n_items + 1 <= dtype_hi(obj)"
+            " and n_items >= n_different_items"),
+        tag("C01 C13", "dtype-signed", "dtype_lo(obj) < 0"),
+        tag("C01", "items-fit-in-one-orientation", "forall(k, 0, n_different_items, 1 <= matrix[k, IDX_WIDTH] and matrix[k, IDX_WIDTH] <= max_dim"
+            " and 1 <= matrix[k, IDX_HEIGHT] and matrix[k, IDX_HEIGHT] <= max_dim"
+            " and not (matrix[k, IDX_WIDTH] > min_dim and matrix[k, IDX_HEIGHT] > min_dim))"),
+    ],
+)
